@@ -537,4 +537,17 @@ theorem readWav_canon (w : WavFile) (hw : w.Wf) : readWav w.bytes = .ok (some (s
     rw [this]; rcases hw.pcm.channels with h | h <;> omega
   simp [this]
 
+theorem wav_frames_lt (w : WavFile) (hw : w.Wf) : w.pcm.frames.length < 4294967296 := by
+  have hlen := framesBytes_length w.pcm hw.pcm.bits w.pcm.frames (fun f hf => (hw.pcm.frames f hf).1)
+  have hpos : 1 ≤ w.pcm.channels * (w.pcm.bits / 8) := by
+    rcases hw.pcm.bits with h | h <;> rcases hw.pcm.channels with h' | h' <;> simp [h, h']
+  have hsmall := hw.small
+  have hc2 := chunk_length idData w.pcm.dataBytes
+  have hb : w.bytes.length = 12 + w.body.length := by simp [WavFile.bytes]; omega
+  have hbody : (chunk idData w.pcm.dataBytes).length ≤ w.body.length := by
+    simp only [WavFile.body, List.length_append]; omega
+  have : w.pcm.frames.length ≤ w.pcm.frames.length * (w.pcm.channels * (w.pcm.bits / 8)) := Nat.le_mul_of_pos_right _ hpos
+  rw [← dataBytes_eq] at hlen
+  omega
+
 end Ctrmml.Wave
